@@ -17,52 +17,13 @@ func c16KeyBlocksE1(c *Ctx, rule string) {
 		typ int
 	}
 	for _, k := range []sk{{"getFNwkSIntKey", 0x01}, {"getAppSKey", 0x02}, {"getSNwkSIntKey", 0x03}, {"getNwkSEncKey", 0x04}} {
-		in := absint.NewInterp(c.Prog)
-		d := in.D
-		var key, netID, joinEUI absint.Value
-		var optNeg, joinNonce, devNonce *absint.Bits
-		var res []absint.Value
-		dom := absint.True
-		err := in.Try(func() {
-			optNeg = d.Sym("optNeg", 1, false, false)
-			key = in.Sym("nwkKey", in.NamedType("", "AES128Key"), false)
-			netID = in.Sym("netID", in.NamedType("", "NetID"), false)
-			joinEUI = in.Sym("joinEUI", in.NamedType("", "EUI64"), false)
-			joinNonce = d.Sym("joinNonce", 32, false, false)
-			devNonce = d.Sym("devNonce", 16, false, false)
-			dom = d.Cmp(token.LSS, joinNonce, d.Const(1<<24, 32, false))
-			in.SetLive(dom)
-			res = in.CallFunc(pk, k.fn, optNeg, key, netID, joinEUI, joinNonce, devNonce)
-		})
-		name := "joinserver." + k.fn
-		if err != nil {
-			r.Unknown(rule, name, "", "inside the interpreter's subset", err.Error())
+		// OptNeg symbolic; when the code's shape makes the interpreter ask for a partition on it (a block builder whose
+		// write position depends on the branch), once with OptNeg set and once unset
+		if c16SKeyRun(c, rule, pk, k.fn, k.typ, -1, "") {
 			continue
 		}
-		if ev, _ := res[1].(*absint.ErrVal); ev == nil || d.M.And(dom, ev.NonNil) != absint.False {
-			r.Bad(rule, name+"/error", "", "no error for JoinNonce < 2^24", in.Show(res[1]))
-			continue
-		}
-		on := optNeg.Bits()[0]
-		jn := leBytes(joinNonce, 3)
-		dn := leBytes(devNonce, 2)
-		z := func(n int) []absint.Value {
-			var out []absint.Value
-			for i := 0; i < n; i++ {
-				out = append(out, d.Const(0, 8, false))
-			}
-			return out
-		}
-		b11 := append(append(append(append([]absint.Value{d.Const(int64(k.typ), 8, false)}, jn...), arrayBytes(joinEUI, true)...), dn...), z(2)...)
-		b10 := append(append(append(append([]absint.Value{d.Const(int64(k.typ), 8, false)}, jn...), arrayBytes(netID, true)...), dn...), z(7)...)
-		block := make([]absint.Value, 16)
-		for i := range block {
-			block[i] = d.ITE(on, b11[i].(*absint.Bits), b10[i].(*absint.Bits))
-		}
-		want := in.OpaqueBytes("AESenc", [][]absint.Value{arrayBytes(key, false), block}, 16, "")
-		compareBytes(c, in, rule, name+"/key", "", arrayBytes(res[0], false), vals(want...), dom,
-			nil)
-		r.Saw("key derivations", fmt.Sprintf("%s: aes128_encrypt(NwkKey, %#02x | JoinNonce | (OptNeg ? JoinEUI | DevNonce | pad : NetID | DevNonce | pad))", k.fn, k.typ))
+		c16SKeyRun(c, rule, pk, k.fn, k.typ, 1, "/optNeg=true")
+		c16SKeyRun(c, rule, pk, k.fn, k.typ, 0, "/optNeg=false")
 	}
 	for _, k := range []sk{{"getJSIntKey", 0x06}, {"getJSEncKey", 0x05}} {
 		in := absint.NewInterp(c.Prog)
@@ -91,4 +52,69 @@ func c16KeyBlocksE1(c *Ctx, rule string) {
 		compareBytes(c, in, rule, name+"/key", "", arrayBytes(res[0], false), vals(want...), absint.True, nil)
 		r.Saw("key derivations", fmt.Sprintf("%s: aes128_encrypt(NwkKey, %#02x | DevEUI | pad)", k.fn, k.typ))
 	}
+}
+
+// c16SKeyRun interprets one session-key derivation; fixed < 0: OptNeg symbolic (returns false when the interpreter asks
+// for a partition on it), 0 / 1: OptNeg constant.
+func c16SKeyRun(c *Ctx, rule, pk, fn string, typ int, fixed int, sfx string) bool {
+	r := c.Run
+	{
+		in := absint.NewInterp(c.Prog)
+		d := in.D
+		var key, netID, joinEUI absint.Value
+		var optNeg, joinNonce, devNonce *absint.Bits
+		var res []absint.Value
+		dom := absint.True
+		err := in.Try(func() {
+			switch fixed {
+			case 0:
+				optNeg = d.Bool(absint.False)
+			case 1:
+				optNeg = d.Bool(absint.True)
+			default:
+				optNeg = d.Sym("optNeg", 1, false, false)
+			}
+			key = in.Sym("nwkKey", in.NamedType("", "AES128Key"), false)
+			netID = in.Sym("netID", in.NamedType("", "NetID"), false)
+			joinEUI = in.Sym("joinEUI", in.NamedType("", "EUI64"), false)
+			joinNonce = d.Sym("joinNonce", 32, false, false)
+			devNonce = d.Sym("devNonce", 16, false, false)
+			dom = d.Cmp(token.LSS, joinNonce, d.Const(1<<24, 32, false))
+			in.SetLive(dom)
+			res = in.CallFunc(pk, fn, optNeg, key, netID, joinEUI, joinNonce, devNonce)
+		})
+		name := "joinserver." + fn + sfx
+		if err != nil {
+			if _, isSplit := err.(absint.SplitRequest); isSplit && fixed < 0 {
+				return false
+			}
+			r.Unknown(rule, name, "", "inside the interpreter's subset", err.Error())
+			return true
+		}
+		if ev, _ := res[1].(*absint.ErrVal); ev == nil || d.M.And(dom, ev.NonNil) != absint.False {
+			r.Bad(rule, name+"/error", "", "no error for JoinNonce < 2^24", in.Show(res[1]))
+			return true
+		}
+		on := optNeg.Bits()[0]
+		jn := leBytes(joinNonce, 3)
+		dn := leBytes(devNonce, 2)
+		z := func(n int) []absint.Value {
+			var out []absint.Value
+			for i := 0; i < n; i++ {
+				out = append(out, d.Const(0, 8, false))
+			}
+			return out
+		}
+		b11 := append(append(append(append([]absint.Value{d.Const(int64(typ), 8, false)}, jn...), arrayBytes(joinEUI, true)...), dn...), z(2)...)
+		b10 := append(append(append(append([]absint.Value{d.Const(int64(typ), 8, false)}, jn...), arrayBytes(netID, true)...), dn...), z(7)...)
+		block := make([]absint.Value, 16)
+		for i := range block {
+			block[i] = d.ITE(on, b11[i].(*absint.Bits), b10[i].(*absint.Bits))
+		}
+		want := in.OpaqueBytes("AESenc", [][]absint.Value{arrayBytes(key, false), block}, 16, "")
+		compareBytes(c, in, rule, name+"/key", "", arrayBytes(res[0], false), vals(want...), dom,
+			nil)
+		r.Saw("key derivations", fmt.Sprintf("%s: aes128_encrypt(NwkKey, %#02x | JoinNonce | (OptNeg ? JoinEUI | DevNonce | pad : NetID | DevNonce | pad))", fn, typ))
+	}
+	return true
 }
